@@ -79,8 +79,11 @@ pub fn run_shards<R: Send>(
     let slots: Vec<Arc<Slot>> = (0..threads).map(|_| Arc::new(Slot::default())).collect();
     let done = AtomicBool::new(false);
     std::thread::scope(|sc| {
-        // watchdog
+        // watchdog (not under Miri: it reads /proc and sleeps on the wall clock)
         sc.spawn(|| {
+            if cfg!(miri) {
+                return;
+            }
             let mut seen: Vec<(u64, u64, Instant)> = slots.iter().map(|_| (u64::MAX, 0, Instant::now())).collect();
             while !done.load(Ordering::Acquire) {
                 std::thread::sleep(Duration::from_millis(200));
